@@ -223,7 +223,7 @@ theorem genIgoRaw_eq (mag : Rat → Rat → Rat) (nd : Nat) (dbl : Bool) (h w : 
       have := gradient2_ok_append p g hg
       subst this
       cases dbl <;>
-        simp [Except.bind, take_map_append, drop_map_append, sinA_angleOf, cosA_angleOf, sinA_dbl, cosA_dbl,
+        simp [Except.bind, take_map_append, drop_map_append, angleC, absC, shape3, sinA_angleOf, cosA_angleOf, sinA_dbl, cosA_dbl,
           zipWith_map_map, setSlice_zero, setSliceFrom_zero, setSliceFrom_skip0, setSliceFrom_skip, setSlice_skip0,
           setSlice_skip, Nat.mul_two, mul_three, mul_four, replicate_blocks, drop_block, drop_whole, -List.replicate_append_replicate]
   · have : (nd + 1 != 3) = true := by simp; omega
@@ -250,7 +250,7 @@ theorem genEsRaw_eq (mag : Rat → Rat → Rat) (nd : Nat) (h w : Nat) (p : Px) 
     | ok g =>
       have := gradient2_ok_append p g hg
       subst this
-      simp [Except.bind, take_map_append, drop_map_append, absOf, addScalar, medianPx, divPx, omap2, map2,
+      simp [Except.bind, take_map_append, drop_map_append, angleC, absC, shape3, absOf, addScalar, medianPx, divPx, omap2, map2,
         zipWith_map_map, zipWith_left_zipWith, zipWith_right_zipWith,
         setSlice_zero, setSliceFrom_zero, setSliceFrom_skip0, setSliceFrom_skip, setSlice_skip0, setSlice_skip,
         Nat.mul_two, mul_three, mul_four, replicate_blocks, drop_block, drop_whole, -List.replicate_append_replicate]
